@@ -171,9 +171,27 @@ func fieldIs(t types.Type, idx int, structName, name string) bool {
 	return false
 }
 
+// Param matches the named parameter, also when the compiler front end spilled it to a
+// local cell because its address is taken (t0 = new T (name); *t0 = name; ... *t0),
+// provided the cell is never re-assigned. It also matches the cell's address itself
+// (pointer-receiver calls on a spilled value parameter).
 func Param(name string) VM {
 	return func(v ssa.Value) bool {
-		p, ok := v.(*ssa.Parameter)
+		if p, ok := v.(*ssa.Parameter); ok {
+			return p.Name() == name
+		}
+		if u, ok := v.(*ssa.UnOp); ok && u.Op == token.MUL {
+			v = u.X
+		}
+		a, ok := v.(*ssa.Alloc)
+		if !ok || a.Comment != name {
+			return false
+		}
+		st := storesTo(a)
+		if len(st) != 1 {
+			return false
+		}
+		p, ok := st[0].(*ssa.Parameter)
 		return ok && p.Name() == name
 	}
 }
@@ -331,6 +349,29 @@ func backSlice(v ssa.Value, depth int) []ssa.Value {
 				if a, ok := x.X.(*ssa.Alloc); ok {
 					for _, s := range storesTo(a) {
 						walk(s, d-1)
+					}
+				}
+			}
+		}
+		if a, ok := v.(*ssa.Alloc); ok && a.Referrers() != nil {
+			for _, sv := range storesTo(a) {
+				walk(sv, d-1)
+			}
+			// values stored into elements/fields of a local aggregate (varargs arrays, literals)
+			for _, r := range *a.Referrers() {
+				var addr ssa.Value
+				switch x := r.(type) {
+				case *ssa.IndexAddr:
+					addr = x
+				case *ssa.FieldAddr:
+					addr = x
+				}
+				if addr == nil || addr.Referrers() == nil {
+					continue
+				}
+				for _, rr := range *addr.Referrers() {
+					if st, ok := rr.(*ssa.Store); ok && st.Addr == addr {
+						walk(st.Val, d-1)
 					}
 				}
 			}
@@ -728,4 +769,25 @@ func PhiNamed(name string) VM {
 		p, ok := v.(*ssa.Phi)
 		return ok && p.Comment == name
 	}
+}
+
+// ConstNamed matches a constant operand equal to the named package-level constant
+// (resolved through go/types, so renumbering the constant follows automatically).
+func (w *World) ConstNamed(pkg, name string) VM {
+	obj, _ := w.Obj(pkg, name).(*types.Const)
+	return func(v ssa.Value) bool {
+		c, ok := v.(*ssa.Const)
+		if !ok || obj == nil || c.Value == nil {
+			return false
+		}
+		return constant.Compare(c.Value, token.EQL, obj.Val())
+	}
+}
+
+func (w *World) ConstVal(pkg, name string) (int64, bool) {
+	obj, _ := w.Obj(pkg, name).(*types.Const)
+	if obj == nil {
+		return 0, false
+	}
+	return constant.Int64Val(constant.ToInt(obj.Val()))
 }
